@@ -53,7 +53,7 @@ theorem TransportLayerNack.roundtrip (p : TransportLayerNack) (h : p.WF) : (p.en
   unfold TransportLayerNack.dec
   rw [if_neg (by slen), Header.dec_bytes _ _ (by rw [hhc]; decide) (by rw [hht]; decide) (by rw [hhl]; omega), bind_ok]
   simp only [hhl]
-  have hl4 : 4 * (2 + ns.length) % 65536 = 8 + ns.length * 4 := by omega
+  have hl4 : 4 * (2 + ns.length) = 8 + ns.length * 4 := by omega
   rw [hl4]
   rw [if_neg (by first | (simp [encNacks_length]; done) | (simp [encNacks_length]; omega)), if_neg (by simp [hht, hhc]), if_neg (by slen)]
   rw [u32At_of_le (by slen), u32At_of_le (by slen), bind_ok, bind_ok]
@@ -124,7 +124,7 @@ theorem SliceLossIndication.roundtrip (p : SliceLossIndication) (h : p.WF) : (p.
   unfold SliceLossIndication.dec
   rw [if_neg (by slen), Header.dec_bytes _ _ (by rw [hhc]; decide) (by rw [hht]; decide) (by rw [hhl]; omega), bind_ok]
   simp only [hhl]
-  have hl4 : 4 * (2 + ns.length) % 65536 = 8 + ns.length * 4 := by omega
+  have hl4 : 4 * (2 + ns.length) = 8 + ns.length * 4 := by omega
   rw [hl4]
   rw [if_neg (by first | (simp [encSLIs_length]; done) | (simp [encSLIs_length]; omega)), if_neg (by simp [hht, hhc])]
   rw [u32At_of_le (by slen), u32At_of_le (by slen), bind_ok, bind_ok]
@@ -193,7 +193,7 @@ theorem FullIntraRequest.roundtrip (p : FullIntraRequest) (h : p.WF) : (p.enc >>
   unfold FullIntraRequest.dec
   rw [if_neg (by slen), Header.dec_bytes _ _ (by rw [hhc]; decide) (by rw [hht]; decide) (by rw [hhl]; omega), bind_ok]
   simp only [hhl]
-  have hl4 : 4 * (2 + ns.length * 2) % 65536 = 8 + ns.length * 8 := by omega
+  have hl4 : 4 * (2 + ns.length * 2) = 8 + ns.length * 8 := by omega
   rw [hl4]
   rw [if_neg (by first | (simp [encFIRs_length]; done) | (simp [encFIRs_length]; omega)), if_neg (by simp [hht, hhc]), if_neg (by slen)]
   rw [u32At_of_le (by slen), u32At_of_le (by slen), bind_ok, bind_ok]
